@@ -107,6 +107,13 @@ func c13MapOrder(r *chk.Run) {
 			return ps[k]
 		}
 		res := gow.Write(ws[wi], cfgs[ci], nil, nil)
+		if wi == 2 && res.Bytes != nil {
+			// the 20-channel workload is additionally copied chunk by chunk through the raw-record
+			// API by a tool that does not register the channels inside the chunks; the copy is what is compared
+			if out, bad := passthroughOpt(res.Bytes, cfgs[ci], false); bad == "" {
+				res.Bytes = append(res.Bytes, out...)
+			}
+		}
 		mcap.VerifMapOrder = nil
 		x.Ops += len(ws[wi].Ops)
 		x.State = explore.Hash(res.Bytes, []byte(fmt.Sprint(sites)))
@@ -119,6 +126,11 @@ func c13MapOrder(r *chk.Run) {
 		if !ok {
 			mcap.VerifMapOrder = nil
 			want = gow.Write(ws[wi], cfgs[ci], nil, nil).Bytes
+			if wi == 2 && want != nil {
+				if out, bad := passthroughOpt(want, cfgs[ci], false); bad == "" {
+					want = append(want, out...)
+				}
+			}
 			reference[key] = want
 		}
 		if !bytes.Equal(res.Bytes, want) {
